@@ -375,8 +375,32 @@ func subrSeed(t *rapid.T) []byte {
 	num := func(v int) []byte { // -107..107
 		return []byte{byte(v + 139)}
 	}
+	arith := [][2]int{{3, 2}, {4, 2}, {5, 1}, {9, 1}, {10, 2}, {11, 2}, {12, 2}, {14, 1}, {15, 2},
+		{18, 1}, {20, 2}, {21, 1}, {22, 4}, {23, 0}, {24, 2}, {26, 1}, {27, 1}, {28, 2}, {29, 1}, {30, 2}, {29, 3}, {30, 4}, {30, 2}, {30, 3}}
+	small := []int{0, 0, 1, 1, -1, 2, 3, 4, -2, 31, 32, 47, 48, 100}
+	arithOnly := rapid.IntRange(0, 2).Draw(t, "arithOnly") == 0
 	body := func(lab string) []byte {
 		var b []byte
+		if arithOnly {
+			// nothing but arithmetic/stack/storage statements, each with the
+			// operands it takes (small values, so that counts and indices of 0,
+			// 1, -1 and just beyond the stack depth all occur): no statement
+			// fails for a reason of form, so every one of them is executed
+			depth := 0
+			for i := rapid.IntRange(1, 12).Draw(t, lab+"Stmts"); i > 0; i-- {
+				ar := rapid.SampledFrom(arith).Draw(t, lab+"Arith")
+				for k := 0; k < ar[1]; k++ {
+					b = append(b, num(rapid.SampledFrom(small).Draw(t, lab+"Small"))...)
+				}
+				b = append(b, 12, byte(ar[0]))
+				depth += 2
+				if depth > 30 {
+					b = append(b, 12, 18, 12, 18) // drop drop
+					depth -= 2
+				}
+			}
+			return append(b, 14)
+		}
 		n := rapid.IntRange(0, 8).Draw(t, lab+"Len")
 		for i := 0; i < n; i++ {
 			switch rapid.IntRange(0, 13).Draw(t, lab+"Tok") {
@@ -384,10 +408,9 @@ func subrSeed(t *rapid.T) []byte {
 				// an arithmetic/stack operator with as many small operands as
 				// it takes (12 x: and or not abs add sub div neg eq drop put
 				// get ifelse random mul sqrt dup exch index roll)
-				ar := rapid.SampledFrom([][2]int{{3, 2}, {4, 2}, {5, 1}, {9, 1}, {10, 2}, {11, 2}, {12, 2}, {14, 1}, {15, 2},
-					{18, 1}, {20, 2}, {21, 1}, {22, 4}, {23, 0}, {24, 2}, {26, 1}, {27, 1}, {28, 2}, {29, 1}, {30, 2}, {29, 3}, {30, 4}, {30, 2}}).Draw(t, lab+"Arith")
+				ar := rapid.SampledFrom(arith).Draw(t, lab+"Arith")
 				for k := 0; k < ar[1]; k++ {
-					b = append(b, num(rapid.SampledFrom([]int{0, 0, 1, 1, -1, 2, 3, 4, -2, 31, 32, 47, 48, 100}).Draw(t, lab+"Small"))...)
+					b = append(b, num(rapid.SampledFrom(small).Draw(t, lab+"Small"))...)
 				}
 				b = append(b, 12, byte(ar[0]))
 			case 0, 1, 2:
@@ -466,6 +489,9 @@ func subrSeed(t *rapid.T) []byte {
 		t.Skip("not assembled")
 	}
 	stats.Label("cff", "seed:hostile-subroutines")
+	if arithOnly {
+		stats.Label("cff", "seed:arithmetic-statements-only")
+	}
 	return out
 }
 
